@@ -431,6 +431,20 @@ Proof.
     destruct (narrow_isinstance_sound P Htrans _ _ _ _ _ En M1) as [Y N].
     apply eval_var in Ev. split; intro Hv; simpl in *; [|eapply mk_map_ok; eauto].
     destruct t1; try (eapply mk_map_chg_ok; eauto); eapply mk_map_ok; eauto.
+  - (* EIsInstL *)
+    simpl in Hi.
+    destruct (infer P true d fr e) as [[t1 m1]| |] eqn:E1; simpl in Hi; try discriminate.
+    destruct (forallb (cref_ok P) ks) eqn:Ek; [|discriminate].
+    sub_eval IH e E1 Hd Hf M1 R1.
+    assert (Ek' : forallb (cref_defined P) ks = true) by exact Ek. rewrite Ek'.
+    assert (G : forall b, maps_ok P en (VBool b) (Some [], Some [])).
+    { intro b. split; intro; eexists; split; try reflexivity; apply map_ok_nil. }
+    destruct e; try (inversion Hi; subst; split; [constructor | apply G]).
+    destruct (narrow_isinst_l P true t1 ks) as [[yes no]| |] eqn:En; simpl in Hi; try discriminate.
+    inversion Hi; subst. split; [constructor|].
+    destruct (narrow_isinstance_l_sound P Htrans _ _ _ _ _ En M1) as [Y N].
+    apply eval_var in Ev. split; intro Hv; simpl in *; [|eapply mk_map_ok; eauto].
+    destruct t1; try (eapply mk_map_chg_ok; eauto); eapply mk_map_ok; eauto.
   - (* ENot *)
     simpl in Hi.
     destruct (infer P true d fr e) as [[t1 [mi me]]| |] eqn:E1; simpl in Hi; try discriminate.
